@@ -54,7 +54,7 @@ pub struct Layout {
 pub fn render(toks: &[Tok], l: &Layout) -> Rendered {
     let n = toks.len();
     layout(toks, &|i| {
-        if let Some((_, f)) = l.dev.iter().find(|(g, _)| *g == i) {
+        if let Some((_, f)) = l.dev.iter().find(|(g, _)| *g == i || (*g == usize::MAX && i >= n)) {
             return Some(f.clone());
         }
         match &l.base {
@@ -106,6 +106,20 @@ pub fn base_layouts(fillers: &[&str]) -> Vec<Layout> {
             name: format!("uniform {f:?}"),
             dev: vec![],
             base: Some(f.to_string()),
+        });
+    }
+    if !fillers.is_empty() {
+        // the default layout shifted by leading blank lines / indentation, and with trailing
+        // blank lines (texts that are equal after trimming must still get their own offsets)
+        v.push(Layout {
+            name: "default after leading blank lines".into(),
+            dev: vec![(0, "\n\n \t".to_string())],
+            base: None,
+        });
+        v.push(Layout {
+            name: "default before trailing blank lines".into(),
+            dev: vec![(usize::MAX, "\r\n\n ".to_string())],
+            base: None,
         });
     }
     v
